@@ -53,7 +53,9 @@ NameLike(t) == t \in UNION {UNION {NamesOf(it) : it \in LeavesOf(lv)} : lv \in A
 Problems(r) ==
   LET lvl == LevelAt(DefById(r.def), r.path)
       items == RangeOf(r.items)  all == RangeOf(r.all) IN
-  [missing   |-> MustList(lvl) \ (IF r.kind = "help" THEN items ELSE all),
+  [missing   |-> (MustList(lvl) \ (IF r.kind = "help" THEN items ELSE all))
+                 \* a usage line supplied by the program (usage / with_usage) is what help shows
+                 \cup (IF r.kind = "help" /\ "usage_token" \in DOMAIN lvl /\ lvl.usage_token \notin all THEN {lvl.usage_token} ELSE {}),
    forbidden |-> MustNotMention(lvl) \cap all,
    foreign   |-> IF r.kind = "help" THEN {t \in items : NameLike(t)} \ MayList(lvl) ELSE {},
    order     |-> IF r.kind # "help" THEN TRUE
